@@ -4,7 +4,7 @@ from pyvc.contract import REG
 from pyvc.values import *  # noqa
 
 REG.schema('BaseClient', module='base_client', fields=dict(
-    handlers=Dict(STR, Opaque('Handler')), base_url=ANY, transports=ANY, current_transport=ANY,
+    handlers=Dict(STR, Opaque('Handler')), base_url=ANY, transports=List(STR), current_transport=ANY,
     sid=ANY, upgrades=ANY, ping_interval=ANY, ping_timeout=ANY, http=Opaque('Http', True),
     external_http=BOOL, handle_sigint=BOOL, ws=Opaque('WS', True),
     read_loop_task=Opaque('Task', True), write_loop_task=Opaque('Task', True),
@@ -73,6 +73,11 @@ for _cls, _mod in (('Client', 'client'), ('AsyncClient', 'async_client')):
               "spawned == old(spawned) and "
               "last_event_is(events, old(events), self.handlers[event], 1, args[0], None))",
               props=['C08'])
+    c.ensures('sync-invokes-once-without-arguments', "implies(event in self.handlers and "
+              "not kwargs['run_async'] and len(args) == 0 and "
+              "handler_accepts(self.handlers[event], 0), spawned == old(spawned) and "
+              "last_event_is(events, old(events), self.handlers[event], 0, None, None))",
+              props=['C08'])
     c.ensures('events-only-grow', 'grows(events, old(events))')
     c.modifies('ghost.events', 'ghost.hresults', 'ghost.spawned', 'ghost.now')
 
@@ -81,8 +86,6 @@ for _cls, _mod in (('Client', 'client'), ('AsyncClient', 'async_client')):
     c.requires(CLIENT_WF, 'client-wf')
     c.requires('0 <= pkt.packet_type and pkt.packet_type <= 9', 'decoded-type-digit')
     c.requires("pkt.packet_type == 4 or not is_bin(pkt.data)", 'decoded-payload')
-    c.requires("implies(self.state == 'connected', self.read_loop_task is not None)",
-               'loops-running-while-connected')
     c.ensures('ping-answered-with-pong-carrying-the-same-data', "implies(pkt.packet_type == 2 and "
               "self.state == 'connected', len(self.queue.accepted) == "
               "len(old(self.queue.accepted)) + 1 and "
@@ -109,6 +112,7 @@ for _cls, _mod in (('Client', 'client'), ('AsyncClient', 'async_client')):
               "old(self.state) != 'connected', events == old(events))", props=['C08'])
     c.ensures('never-connects', "implies(old(self.state) != 'connected', "
               "self.state != 'connected')", props=['C08'])
+    c.ensures('events-only-grow', 'grows(events, old(events))')
     c.ensures('state-changes-only-on-close', "implies(pkt.packet_type != 1, "
               "self.state == old(self.state) and self.sid == old(self.sid))", props=['C08'])
     c.ensures('client-stays-wf', "(self.state == 'connected' or self.state == 'disconnecting' or "
@@ -135,6 +139,7 @@ for _cls, _mod in (('Client', 'client'), ('AsyncClient', 'async_client')):
     c.requires(CLIENT_WF, 'client-wf')
     c.ensures('always-ends-disconnected-and-reusable', "self.state == 'disconnected' and "
               "self.sid is None")
+    c.ensures('events-only-grow', 'grows(events, old(events))')
     c.ensures('harmless-when-not-connected', "implies(old(self.state) != 'connected', "
               "events == old(events) and hresults == old(hresults) and unchanged('Queue.items', 'Queue.accepted'))")
     c.ensures('exactly-one-disconnect-event-with-the-reason', "implies(old(self.state) == "
@@ -323,3 +328,88 @@ for _cls, _mod in (('Client', 'client'), ('AsyncClient', 'async_client')):
          "(old(self.state) == 'connected' and last_event_is(events, old(events), "
          "self.handlers['disconnect'], 1, 'server disconnect', None)))")],
         modifies=['p', 'pkt', 'e'] + RW_MOD)
+
+# -------------------------------------------------------------------- _connect_polling (C08)
+# connect() = argument checks + queue creation + _connect_<transport>. The polling handshake either
+# raises ConnectionError (refused, non-2xx, undecodable, non-OPEN) leaving the client disconnected,
+# or establishes the session: connect handler once, first; then the rest of the first payload is
+# dispatched and - unless the WebSocket upgrade took over - both loops are started.
+for _cls, _mod in (('Client', 'client'), ('AsyncClient', 'async_client')):
+    c = REG.contract('%s.%s._connect_websocket' % (_mod, _cls))
+    c.trusted = True
+    c.trusted_reason = ('WebSocket connection set-up and probe upgrade over websocket-client (cookie / '
+                        'auth / proxy / TLS option plumbing): ASSUMED contract - returns a bool; False '
+                        'leaves session state, events and tasks unchanged')
+    c.param('self', Ref(_cls)).param('url', STR).param('headers', Dict(STR, STR))
+    c.param('engineio_path', STR)
+    c.returns(BOOL)
+    c.ensures('false-changes-nothing', "implies(not result, self.state == old(self.state) and "
+              "self.sid == old(self.sid) and events == old(events) and hresults == old(hresults) and "
+              "spawned == old(spawned) and unchanged('Queue.items', 'Queue.accepted', 'Queue.unf'))")
+    c.ensures('events-only-grow', 'grows(events, old(events)) and grows(spawned, old(spawned))')
+    c.modifies('self.state', 'self.sid', 'self.current_transport', 'self.ws', 'self.base_url',
+               'self.read_loop_task', 'self.write_loop_task', 'self.ssl_verify', 'ghost.events',
+               'ghost.hresults', 'ghost.spawned', 'ghost.now', 'ghost.ws_log', 'self.queue.items',
+               'self.queue.unf', 'self.queue.accepted', 'self.queue.put_none')
+
+    c = REG.contract('%s.%s._connect_polling' % (_mod, _cls), props=['C08', 'C09'])
+    c.param('self', Ref(_cls)).param('url', STR).param('headers', Dict(STR, STR))
+    c.param('engineio_path', STR)
+    c.requires("self.state == 'disconnected' and self.sid is None and self.queue is not None and "
+               "self.queue.unf >= len(self.queue.items) and len(self.queue.items) == 0", 'fresh-connect')
+    c.abstract('if requests is None:' if _cls == 'Client' else 'if aiohttp is None:',
+               'optional-dependency guard (the HTTP library is a library contract here)')
+    NOT_CONNECTED = ("self.state == 'disconnected' and self.sid is None and events == old(events) and "
+                     "hresults == old(hresults) and spawned == old(spawned)")
+    c.may_raise('ConnectionError', 'True', label='refused-bad-status-undecodable-or-not-open',
+                ensures=[('client-left-disconnected-and-reusable', NOT_CONNECTED)], props=['C08'])
+    c.ensures('connect-handler-first-and-once', "implies('connect' in self.handlers and "
+              "handler_accepts(self.handlers['connect'], 0), len(events) >= len(old(events)) + 1 and "
+              "events[0:len(old(events))] == old(events) and "
+              "events[len(old(events))] == mk_event(self.handlers['connect'], 0, None, None))",
+              props=['C08'])
+    c.ensures('events-only-grow', 'grows(events, old(events))')
+    # the many paths through the decoding of the OPEN packet join before the session is established
+    c.cut("self.state = 'connected'", [
+        ('nothing-visible-yet', "self.state == 'disconnected' and events == old(events) and "
+         "hresults == old(hresults) and spawned == old(spawned) and "
+         "unchanged('Queue.items', 'Queue.accepted', 'Queue.unf', 'Queue.put_none')"),
+        ('sid-adopted-as-text', 'isinstance(self.sid, str) and isinstance(self.base_url, str) and '
+         "self.current_transport == 'polling'"),
+        ('timing-adopted', 'isinstance(self.ping_interval, float) and '
+         'isinstance(self.ping_timeout, float)'),
+        ('queue-wf', 'self.queue is not None and self.queue.unf >= len(self.queue.items)'),
+        ('decoded-packets', 'len(p.packets) >= 1 and forall(lambda k: 0 <= p.packets[k].packet_type '
+         'and p.packets[k].packet_type <= 9 and (p.packets[k].packet_type == 4 or '
+         'not is_bin(p.packets[k].data)), 0, len(p.packets))')])
+    CP_MOD = ['self.state', 'self.sid', 'self.upgrades', 'self.ping_interval', 'self.ping_timeout',
+              'self.current_transport', 'self.base_url', 'self.ws', 'self.read_loop_task',
+              'self.write_loop_task', 'self.ssl_verify', 'self.queue.items', 'self.queue.unf',
+              'self.queue.accepted', 'self.queue.put_none', 'ghost.events', 'ghost.hresults',
+              'ghost.spawned', 'ghost.now', 'ghost.http_bodies', 'ghost.ws_log', 'new Payload.packets',
+              'new Packet.binary', 'new Packet.packet_type', 'new Packet.data',
+              'new Packet.encode_cache']
+    c.modifies(*CP_MOD)
+    c.loop(0, index='j', invariants=[
+        ('wf', "(self.state == 'connected' or self.state == 'disconnecting' or "
+         "self.state == 'disconnected') and self.current_transport == 'polling' and "
+         "implies(self.state == 'connected', self.queue.unf >= len(self.queue.items))"),
+        ('connect-handler-first', "implies('connect' in self.handlers and "
+         "handler_accepts(self.handlers['connect'], 0), len(events) >= len(old(events)) + 1 and "
+         "events[0:len(old(events))] == old(events) and "
+         "events[len(old(events))] == mk_event(self.handlers['connect'], 0, None, None))"),
+        ('events-only-grow', 'grows(events, old(events))'),
+        ('decoded-packets', 'forall(lambda k: 0 <= xs0[k].packet_type and '
+         'xs0[k].packet_type <= 9 and (xs0[k].packet_type == 4 or '
+         'not is_bin(xs0[k].data)), 0, len(xs0))')],
+        modifies=['pkt', 'self.state', 'self.sid', 'self.queue.items', 'self.queue.unf',
+                  'self.queue.accepted', 'self.queue.put_none', 'ghost.events', 'ghost.hresults',
+                  'ghost.spawned', 'ghost.now'])
+
+c = REG.contract('client.Client.create_queue', 'async_client.AsyncClient.create_queue')
+c.trusted = True
+c.libimpl = 'asyncio.Queue'
+c.trusted_reason = ('queue.Queue() / asyncio.Queue() with the library Empty exception class stored '
+                    'on it (library contract: a new empty queue)')
+# (Client.connect itself - argument checks, the filtering comprehension over `transports` and the
+# getattr dispatch - is not under contract: comprehensions with a filter are outside the subset)
